@@ -102,38 +102,54 @@ func H_C01_nested_maps() {
 	}
 }
 
-type ZWidths struct {
+type ZW16x32 struct {
 	Label string
 	Short []int16
 	Wide  []int32
-	Tiny  []int8
-	Plain []int
-	U16   []uint16
-	U32   []uint32
-	Long  []int64
-	U64   []uint64
-	U     []uint
 }
 
-// hWidthLists: integer slices of different widths side by side in one value, with no scalar field of those kinds
-// anywhere (so nothing but the slices themselves tells the extracted maps which widths exist): every element comes
-// back as the number it was, in a slice of its own type.
+type ZW8x32 struct {
+	Tiny []int8
+	Wide []int32
+}
+
+type ZWPlain struct {
+	Wide  []int32
+	Plain []int
+}
+
+type ZWUnsigned struct {
+	U16 []uint16
+	U32 []uint32
+}
+
+type ZWLong struct {
+	Long []int64
+	U64  []uint64
+	Wide []int32
+}
+
+// hWidthLists: integer slices of two or three different widths side by side in one value, with no scalar field
+// of those kinds and no slice of another width anywhere (so nothing but these slices tells the extracted maps which
+// widths exist): every element comes back as the number it was, in a slice of its own type.
 func hWidthLists() {
 	x16, x32 := vInt16("s"), vInt32("w")
 	// one wire form each (forms are C07's kernels' subject): a one-octet int16 and an int32 beyond the 16-bit range
 	vAssume(x16 >= 0 && x16 <= 40)
 	vAssume(x32 > 262143)
-	v := &ZWidths{Label: "l"}
-	which := vChoice("which", 4)
+	var v interface{}
+	which := vChoice("which", 5)
 	switch which {
 	case 0:
-		v.Short, v.Wide = []int16{x16, 1}, []int32{x32, 2}
+		v = &ZW16x32{Label: "l", Short: []int16{x16, 1}, Wide: []int32{x32, 2}}
 	case 1:
-		v.Tiny, v.Plain, v.Wide = []int8{int8(x16)}, []int{int(x32)}, []int32{x32}
+		v = &ZW8x32{Tiny: []int8{int8(x16)}, Wide: []int32{x32}}
 	case 2:
-		v.U16, v.U32, v.U = []uint16{uint16(x16)}, []uint32{uint32(x32)}, []uint{uint(uint32(x32))}
+		v = &ZWPlain{Wide: []int32{x32}, Plain: []int{int(x32)}}
 	case 3:
-		v.Long, v.U64, v.Wide = []int64{int64(x32) << 20}, []uint64{uint64(uint32(x32)) << 8}, []int32{x32}
+		v = &ZWUnsigned{U16: []uint16{uint16(x16)}, U32: []uint32{uint32(x32)}}
+	case 4:
+		v = &ZWLong{Long: []int64{int64(x32) << 20}, U64: []uint64{uint64(uint32(x32)) << 8}, Wide: []int32{x32}}
 	}
 	typMap, nameMap := ExtractTypeNameMap(v) // iteration order left to the solver
 	vMapOrderFixed(true)
@@ -141,17 +157,22 @@ func hWidthLists() {
 	vAssert("encode-noerr", err == nil)
 	out, err := ToObject(bs, typMap)
 	vAssert("decode-noerr", err == nil)
-	g, ok := out.(*ZWidths)
-	vAssert("type", ok && g != nil)
 	switch which {
 	case 0:
-		vAssert("int16-and-int32", len(g.Short) == 2 && len(g.Wide) == 2 && g.Short[0] == x16 && g.Short[1] == 1 && g.Wide[0] == x32 && g.Wide[1] == 2)
+		g, ok := out.(*ZW16x32)
+		vAssert("int16-and-int32", ok && g != nil && len(g.Short) == 2 && len(g.Wide) == 2 && g.Short[0] == x16 && g.Short[1] == 1 && g.Wide[0] == x32 && g.Wide[1] == 2)
 	case 1:
-		vAssert("int8-int-int32", len(g.Tiny) == 1 && len(g.Plain) == 1 && len(g.Wide) == 1 && g.Tiny[0] == int8(x16) && g.Plain[0] == int(x32) && g.Wide[0] == x32)
+		g, ok := out.(*ZW8x32)
+		vAssert("int8-and-int32", ok && g != nil && len(g.Tiny) == 1 && len(g.Wide) == 1 && g.Tiny[0] == int8(x16) && g.Wide[0] == x32)
 	case 2:
-		vAssert("unsigned", len(g.U16) == 1 && len(g.U32) == 1 && len(g.U) == 1 && g.U16[0] == uint16(x16) && g.U32[0] == uint32(x32) && g.U[0] == uint(uint32(x32)))
+		g, ok := out.(*ZWPlain)
+		vAssert("int32-and-int", ok && g != nil && len(g.Plain) == 1 && len(g.Wide) == 1 && g.Plain[0] == int(x32) && g.Wide[0] == x32)
 	case 3:
-		vAssert("longs", len(g.Long) == 1 && len(g.U64) == 1 && len(g.Wide) == 1 && g.Long[0] == int64(x32)<<20 && g.U64[0] == uint64(uint32(x32))<<8 && g.Wide[0] == x32)
+		g, ok := out.(*ZWUnsigned)
+		vAssert("unsigned", ok && g != nil && len(g.U16) == 1 && len(g.U32) == 1 && g.U16[0] == uint16(x16) && g.U32[0] == uint32(x32))
+	case 4:
+		g, ok := out.(*ZWLong)
+		vAssert("longs", ok && g != nil && len(g.Long) == 1 && len(g.U64) == 1 && len(g.Wide) == 1 && g.Long[0] == int64(x32)<<20 && g.U64[0] == uint64(uint32(x32))<<8 && g.Wide[0] == x32)
 	}
 }
 
